@@ -52,6 +52,20 @@ def has_kind(b, k):
     return b[0] == k or (b[0] == "any" and (has_kind(b[1], k) or has_kind(b[2], k)))
 
 
+def judge_return(ctx, st, algo, bdesc, batch, tracker, stratum, step_desc, which):
+    if not st.log or not st.log[-1][1]:
+        ctx.violate(f"C14/returned-before-budget-met/{algo}", f"{which}: search() returned although the last budget check answered False ({st.log[-3:]})")
+    trues = [i for i, (_, ans) in enumerate(st.log) if ans]
+    if trues and trues[0] != len(st.log) - 1:
+        ctx.violate(f"C14/kept-running-after-budget-met/{algo}", f"{which}: the budget answered True at check #{trues[0] + 1} but {len(st.log)} checks were made")
+    # pure evaluation budget: total in [n, n + batch)
+    if bdesc[0] == "evals" and tracker.get_number_evaluations() == st.invocations and stratum == "normal" and step_desc is None:
+        n = bdesc[1]
+        if not (n <= st.invocations < n + batch):
+            ctx.violate(f"C14/total-evaluations/{algo}/{'under' if st.invocations < n else 'over'}",
+                        f"{which}: {algo} with EvaluationBudget({n}) and batch {batch} performed {st.invocations} evaluations")
+
+
 def run(ctx):
     from geneticengine.algorithms.gp.gp import GeneticProgramming
     from geneticengine.algorithms.hill_climbing import HC
@@ -220,44 +234,49 @@ def run(ctx):
                   "target_hit_at": hit_at, "stratum": stratum, "minimize": minimize}
     ctx.stat("stratum:" + stratum)
     returned = False
+    reuse = H.draw(3) == 2  # F13: the same budget object drives a second search in the same process
     with installed_clock(clock):
-        tracker = SingleObjectiveProgressTracker(problem, SequentialEvaluator())
         top = build(bdesc, top=True)
-        kw = {}
-        if algo == "hc":
-            kw["number_of_mutations"] = hc_n
-        if algo == "gp":
-            kw["population_size"] = pop
-            if step_desc is not None:
-                kw["step"] = build_step(step_desc)
-        cls = {"rs": RandomSearch, "opo": OnePlusOne, "hc": HC, "gp": GeneticProgramming}[algo]
-        try:
-            a = cls(problem=problem, budget=top, representation=rep, random=rnd, tracker=tracker, **kw)
-            a.search()
-            returned = True
-        except SimStepCap:
-            starved = st.steps - st.last_progress > 1500  # no evaluation for >1500 seam steps: the step yields no unevaluated individual
-            ctx.violate(f"C14/liveness/{algo}/{'no-unevaluated-offspring' if starved else 'no-return'}/{'generated-step' if step_desc is not None else 'default-step'}",
-                        f"{algo} did not return within {cap} seam steps ({st.invocations} evaluations, {st.checks} budget checks; budget {bdesc}; step {step_desc})")
-        except Exception as e:
-            from ..world import short_tb
+        for attempt in range(2 if reuse else 1):
+            if attempt == 1:
+                if not returned or ctx.violations:
+                    break
+                ctx.faults["carry_over"] += 1
+                # fresh search state, same budget instance
+                st.invocations = 0
+                st.done_at = None
+                st.checks = 0
+                st.log = []
+                st.steps = 0
+                st.last_progress = 0
+                returned = False
+            tracker = SingleObjectiveProgressTracker(problem, SequentialEvaluator())
+            kw = {}
+            if algo == "hc":
+                kw["number_of_mutations"] = hc_n
+            if algo == "gp":
+                kw["population_size"] = pop
+                if step_desc is not None:
+                    kw["step"] = build_step(step_desc)
+            cls = {"rs": RandomSearch, "opo": OnePlusOne, "hc": HC, "gp": GeneticProgramming}[algo]
+            try:
+                a = cls(problem=problem, budget=top, representation=rep, random=rnd, tracker=tracker, **kw)
+                a.search()
+                returned = True
+            except SimStepCap:
+                starved = st.steps - st.last_progress > 1500  # no evaluation for >1500 seam steps: the step yields no unevaluated individual
+                ctx.violate(f"C14/liveness/{algo}/{'no-unevaluated-offspring' if starved else 'no-return'}/{'generated-step' if step_desc is not None else 'default-step'}",
+                            f"{algo} did not return within {cap} seam steps ({st.invocations} evaluations, {st.checks} budget checks; budget {bdesc}; step {step_desc})")
+                break
+            except Exception as e:
+                from ..world import short_tb
 
-            ctx.stat("foreign_failure:" + type(e).__name__)
-            ctx.log("exception", type(e).__name__)
-            return
+                ctx.stat("foreign_failure:" + type(e).__name__)
+                ctx.log("exception", type(e).__name__)
+                return
+            if returned:
+                judge_return(ctx, st, algo, bdesc, batch, tracker, stratum, step_desc, "second-search-same-budget-object" if attempt else "first-search")
     if st.checks >= 2:
         ctx.nontrivial = True
-    if returned:
-        if not st.log or not st.log[-1][1]:
-            ctx.violate(f"C14/returned-before-budget-met/{algo}", f"search() returned although the last budget check answered False ({st.log[-3:]})")
-        trues = [i for i, (_, ans) in enumerate(st.log) if ans]
-        if trues and trues[0] != len(st.log) - 1:
-            ctx.violate(f"C14/kept-running-after-budget-met/{algo}", f"the budget answered True at check #{trues[0] + 1} but {len(st.log)} checks were made")
-        # pure evaluation budget: total in [n, n + batch)
-        if bdesc[0] == "evals" and tracker.get_number_evaluations() == st.invocations and stratum == "normal" and step_desc is None:
-            n = bdesc[1]
-            if not (n <= st.invocations < n + batch):
-                ctx.violate(f"C14/total-evaluations/{algo}/{'under' if st.invocations < n else 'over'}",
-                            f"{algo} with EvaluationBudget({n}) and batch {batch} performed {st.invocations} evaluations")
     ctx.stat("budget_checks", st.checks)
     ctx.stat("algo:" + algo)
